@@ -9,3 +9,7 @@ PROP = {
     "level_note": "Trusted: Coq kernel + vm_compute; hand transcription of the forked bank's locked-coins logic and the hold keeper (Hold/Locked.v); harness projection. The theorem covers the bank primitives; that every module route goes through them is exercised (13 routes), not proved. Fee payment through the ante handler is not yet a route of the matrix.",
     "technique": "Coq invariant proof by induction over fold_left step + differential correspondence (route matrix and histories) evaluated in Coq",
 }
+
+# bypass call sites + application wiring obligations (checks/wiring.py, coq/Properties/Wiring.v)
+from wiring import hooks
+pre, post = hooks("C03")
